@@ -296,6 +296,12 @@ def hTbl : List String → String → Res
     some (m, verdictEq m impl)
   | _, _ => none
 
+/-- `builderprobe` / `ofmanyprobe` / `tbprobe`: as `joinprobe` -- the harness evaluates the property's clauses on the
+    real code at sizes the driver cannot build (10^8 bits, millions of Sets); the theorems C12_builder, C12_ofMany,
+    C15_* say the model satisfies them for every size, so the expected answer is "ok" -/
+def hProbeOk : List String → String → Res
+  | _, impl => some ("ok", verdictEq "ok" impl)
+
 def hGetw : List String → String → Res
   | [ws, i, w], impl => do
     let ws ← pNatList ws; let i ← pNat i; let w ← pNat w
